@@ -12,7 +12,7 @@ package server
 //   BitSet with fewer than requiredAcks bits; ack sets shrink with the offset (a cursor
 //   that acked o2 has acked every tracked o1 < o2).
 
-//@ define qInv(q *quorumAckTracker) bool = q.tracker != nil && q.requiredAcks == q.replicationFactor/2 && q.replicationFactor <= 17 && -1 <= q.commitOffset.v && q.commitOffset.v <= q.headOffset.v && q.headOffset.v < 4611686018427387904 && 0 <= q.cursorIdxGenerator && q.cursorIdxGenerator <= 16 && (forall k int :: 0 <= k && k < len(q.waitingRequests) ==> q.waitingRequests[k].callback != nil) && (forall o int64 :: inmap(q.tracker, o) ==> q.tracker[o] != nil && o <= q.headOffset.v && (q.requiredAcks > 0 ==> q.commitOffset.v < o && popcount16(q.tracker[o].bits) < q.requiredAcks)) && (forall o1 int64, o2 int64 :: inmap(q.tracker, o1) && inmap(q.tracker, o2) && o1 != o2 ==> q.tracker[o1] != q.tracker[o2]) && (forall o1 int64, o2 int64, j int :: inmap(q.tracker, o1) && inmap(q.tracker, o2) && o1 < o2 && 0 <= j && j < 16 && bit16(q.tracker[o2].bits, j) ==> bit16(q.tracker[o1].bits, j))
+//@ define qInv(q *quorumAckTracker) bool = q.tracker != nil && q.requiredAcks == q.replicationFactor/2 && 1 <= q.replicationFactor && q.replicationFactor <= 17 && -1 <= q.commitOffset.v && q.commitOffset.v <= q.headOffset.v && q.headOffset.v < 4611686018427387904 && 0 <= q.cursorIdxGenerator && q.cursorIdxGenerator <= 16 && (forall k int :: 0 <= k && k < len(q.waitingRequests) ==> q.waitingRequests[k].callback != nil) && (forall o int64 :: inmap(q.tracker, o) ==> q.tracker[o] != nil && o <= q.headOffset.v && (q.requiredAcks > 0 ==> q.commitOffset.v < o && popcount16(q.tracker[o].bits) < q.requiredAcks)) && (forall o1 int64, o2 int64 :: inmap(q.tracker, o1) && inmap(q.tracker, o2) && o1 != o2 ==> q.tracker[o1] != q.tracker[o2]) && (forall o1 int64, o2 int64, j int :: inmap(q.tracker, o1) && inmap(q.tracker, o2) && o1 < o2 && 0 <= j && j < 16 && bit16(q.tracker[o2].bits, j) ==> bit16(q.tracker[o1].bits, j))
 
 //@ func quorumAckTracker.notifyCommitOffsetAdvanced
 //@ property C08 C01
@@ -41,3 +41,79 @@ package server
 //@ ensures forall o int64 :: old(inmap(c.quorumTracker.tracker, o)) && o != offset ==> inmap(c.quorumTracker.tracker, o)
 //@ ensures forall o int64, j int :: inmap(c.quorumTracker.tracker, o) && 0 <= j && j < 16 && (o != offset || j != c.cursorIdx) ==> (bit16(c.quorumTracker.tracker[o].bits, j) <==> old(bit16(c.quorumTracker.tracker[o].bits, j)))
 //@ ensures inmap(c.quorumTracker.tracker, offset) ==> bit16(c.quorumTracker.tracker[offset].bits, c.cursorIdx)
+//@ preserves fields(cursorAcker), c.quorumTracker.requiredAcks, c.quorumTracker.replicationFactor, c.quorumTracker.tracker, c.quorumTracker.closed
+
+//@ func quorumAckTracker.CommitOffset
+//@ property C08
+//@ pure
+//@ ensures result == q.commitOffset.v
+
+//@ func quorumAckTracker.HeadOffset
+//@ property C08
+//@ pure
+//@ ensures result == q.headOffset.v
+
+//@ func quorumAckTracker.NextOffset
+//@ property C08
+//@ ensures result == old(q.nextOffset.v) + 1 && q.nextOffset.v == result
+//@ modifies q.nextOffset.v
+
+//@ func quorumAckTracker.WaitForCommitOffsetAsync(q, ctx, offset, cb)
+//@ property C08 C01
+//@ requires cb != nil
+//@ assert at call Callback.OnComplete#0: q.requiredAcks == 0 || q.commitOffset.v >= offset
+//@ ensures q.commitOffset.v == old(q.commitOffset.v) && q.headOffset.v == old(q.headOffset.v)
+//@ preserves fields(util.BitSet), fields(map[int64]*server/util.BitSet), q.tracker, q.requiredAcks, q.replicationFactor, q.cursorIdxGenerator
+
+//@ func quorumAckTracker.AdvanceHeadOffset
+//@ property C08 C01
+//@ requires qInv(q) && q.waitForHeadOffset != nil && headOffset < 4611686018427387904
+//@ ensures qInv(q)
+//@ ensures q.closed || q.headOffset.v == ite(headOffset <= old(q.headOffset.v), old(q.headOffset.v), headOffset)
+//@ ensures q.requiredAcks > 0 ==> q.commitOffset.v == old(q.commitOffset.v)
+//@ ensures q.commitOffset.v >= old(q.commitOffset.v) && q.commitOffset.v <= q.headOffset.v
+
+//@ func NewQuorumAckTracker
+//@ property C08 C01
+//@ requires 1 <= replicationFactor && replicationFactor <= 17 && -1 <= commitOffset && commitOffset <= headOffset && headOffset < 4611686018427387904
+//@ loop 0 invariant commitOffset + 1 <= offset && offset <= headOffset + 1 && q.tracker != nil
+//@ loop 0 invariant forall o int64 :: inmap(q.tracker, o) <==> (commitOffset < o && o < offset)
+//@ loop 0 invariant forall o int64 :: inmap(q.tracker, o) ==> q.tracker[o] != nil && q.tracker[o].bits == 0 && fresh(q.tracker[o])
+//@ loop 0 invariant forall o1 int64, o2 int64 :: inmap(q.tracker, o1) && inmap(q.tracker, o2) && o1 != o2 ==> q.tracker[o1] != q.tracker[o2]
+//@ loop 0 modifies fresh
+//@ ensures result != nil && typeIs(result, *quorumAckTracker) && qInv(as(result, *quorumAckTracker))
+//@ ensures as(result, *quorumAckTracker).commitOffset.v == commitOffset && as(result, *quorumAckTracker).headOffset.v == headOffset && as(result, *quorumAckTracker).nextOffset.v == headOffset && as(result, *quorumAckTracker).cursorIdxGenerator == 0 && !as(result, *quorumAckTracker).closed
+//@ modifies nothing
+
+// No tracked offset carries a bit of a cursor index that has not been handed out yet.
+//
+//@ define qFresh(q *quorumAckTracker) bool = forall o int64, j int :: inmap(q.tracker, o) && q.cursorIdxGenerator <= j && j < 16 ==> !bit16(q.tracker[o].bits, j)
+
+//@ define caInv(c *cursorAcker) bool = c.quorumTracker != nil && 0 <= c.cursorIdx && c.cursorIdx < 16
+
+//@ func quorumAckTracker.NewCursorAcker(q, ackOffset) (acker, err)
+//@ property C08 C01
+//@ requires qInv(q) && qFresh(q)
+//@ loop 0 invariant qInv(q) && q.cursorIdxGenerator == old(q.cursorIdxGenerator) && qa.quorumTracker == q && qa.cursorIdx == q.cursorIdxGenerator && q.cursorIdxGenerator < 16
+//@ loop 0 invariant q.commitOffset.v >= old(q.commitOffset.v) && q.headOffset.v == old(q.headOffset.v) && ackOffset <= q.headOffset.v
+//@ loop 0 invariant forall o int64 :: inmap(q.tracker, o) && o < offset ==> bit16(q.tracker[o].bits, q.cursorIdxGenerator)
+//@ loop 0 invariant forall o int64, j int :: inmap(q.tracker, o) && q.cursorIdxGenerator < j && j < 16 ==> !bit16(q.tracker[o].bits, j)
+//@ loop 0 decreases ackOffset - offset + 1
+//@ ensures err == nil ==> acker != nil && typeIs(acker, *cursorAcker) && caInv(as(acker, *cursorAcker)) && as(acker, *cursorAcker).quorumTracker == q && as(acker, *cursorAcker).cursorIdx == old(q.cursorIdxGenerator)
+//@ ensures err == nil ==> qInv(q) && qFresh(q) && q.cursorIdxGenerator == old(q.cursorIdxGenerator) + 1
+//@ ensures err != nil ==> q.cursorIdxGenerator == old(q.cursorIdxGenerator) && q.commitOffset.v == old(q.commitOffset.v)
+//@ ensures q.commitOffset.v >= old(q.commitOffset.v) && q.commitOffset.v <= q.headOffset.v && q.headOffset.v == old(q.headOffset.v)
+
+//@ func cursorAcker.Ack
+//@ property C08 C01
+//@ requires caInv(c) && qInv(c.quorumTracker)
+//@ assume forall o int64 :: inmap(c.quorumTracker.tracker, o) && o < offset ==> bit16(c.quorumTracker.tracker[o].bits, c.cursorIdx) because "acks on one replication stream arrive in log order: a cursor that acknowledges offset o has acknowledged every smaller tracked offset (follower side: C03; cursor side: follower_cursor.receiveAcks forwards them in stream order)"
+//@ ensures qInv(c.quorumTracker)
+//@ ensures c.quorumTracker.commitOffset.v >= old(c.quorumTracker.commitOffset.v) && c.quorumTracker.commitOffset.v <= c.quorumTracker.headOffset.v && c.quorumTracker.headOffset.v == old(c.quorumTracker.headOffset.v)
+//@ ensures c.quorumTracker.commitOffset.v != old(c.quorumTracker.commitOffset.v) ==> c.quorumTracker.commitOffset.v == offset && old(inmap(c.quorumTracker.tracker, offset)) && old(popcount16(c.quorumTracker.tracker[offset].bits)) + ite(old(bit16(c.quorumTracker.tracker[offset].bits, c.cursorIdx)), 0, 1) == c.quorumTracker.requiredAcks
+
+//@ func quorumAckTracker.WaitForCommitOffset
+//@ trusted
+//@ ensures result == nil ==> q.requiredAcks == 0 || q.commitOffset.v >= offset
+//@ preserves fields(quorumAckTracker), fields(util.BitSet), fields(map[int64]*server/util.BitSet), fields(cursorAcker)
+//@ note trusted: blocks on a channel fed by a concurrent.Once callback; OnComplete is invoked only with commit >= offset (asserted at both invocation sites: WaitForCommitOffsetAsync, notifyCommitOffsetAdvanced) and commit never decreases (ack, AdvanceHeadOffset); channels and goroutines are outside the verified subset
